@@ -222,10 +222,10 @@ def rand_value(t, rnd, n=None):
             kind = "String"
         v = scalar_value(kind, t[2] if tag == "dyn" else -1, rnd, n=n)
         cnt = t[2] if tag == "dyn" else -1
-        short = not (cnt > 0 and isinstance(v, (list, str, bytes, bytearray)) and len(v) > cnt)
-        if rnd.random() < 0.35 and v is not None and short:
-            # typed wrapper chooses the alternative explicitly (a wrapper longer than the
-            # Dynamic's count is the known finding C01-typed-count, replayed separately)
+        del cnt
+        if rnd.random() < 0.35 and v is not None:
+            # typed wrapper chooses the alternative explicitly (a wrapper longer than the Dynamic's count is refused since D39;
+            # before, it was the finding C01-typed-count, which is still replayed)
             return L.Typed(kind, v)
         if tag == "any" and rnd.random() < 0.1:
             return [1, 2]
